@@ -329,6 +329,7 @@ func r16capX(c *core.Ctx, R string) {
 		res[s] = &cell{ok: true}
 	}
 	okLen, okOther := true, true
+	undecided := ""
 	for _, o := range outs {
 		if o.Panicked || len(o.Ret) != 1 || o.Ret[0].K != core.APtr {
 			continue
@@ -342,26 +343,36 @@ func r16capX(c *core.Ctx, R string) {
 		}
 		for oct, field := range []string{"p0.CipheringAlg", "p0.IntegrityAlg"} {
 			v := o.Mem.Load(fmt.Sprintf("%s[%d]", buf.Path, buf.Lo+oct), nil)
-			got, isK := v.ConstVal()
-			f, pinned := o.Facts[field]
-			alg := -1
-			if pinned && f[0] == f[1] && f[0] <= 3 {
-				alg = int(f[0])
-			}
-			if alg < 0 {
-				// no algorithm with a capability bit: the octet stays clear
-				if !isK || got != 0 {
-					okOther = false
-				}
+			if v.K != core.AInt {
+				okOther = false
 				continue
 			}
-			name := setters[4*oct+alg]
-			res[name].seen = true
-			if !isK || got != 1<<uint(7-alg) {
-				res[name].ok = false
-				res[name].bad = fmt.Sprintf("octet %d is %s for algorithm %d, want %#02x", oct, v, alg, 1<<uint(7-alg))
+			// every algorithm identity the path leaves possible: the octet, folded for that identity, is the
+			// identity's bit (0..3) or clear (whatever selects it: a switch, a table, 0x80 >> alg under a guard)
+			for _, a := range feasibleOf(o, field, allOctets) {
+				got, okE := core.EvalBits(v.Bits, func(src string) (uint64, bool) { return uint64(a), src == field })
+				if !okE {
+					undecided = fmt.Sprintf("octet %d is %s, which does not fold on %s alone", oct, clip(v.String()), field)
+					continue
+				}
+				if a > 3 {
+					if got != 0 {
+						okOther = false
+					}
+					continue
+				}
+				name := setters[4*oct+int(a)]
+				res[name].seen = true
+				if got != 1<<uint(7-a) {
+					res[name].ok = false
+					res[name].bad = fmt.Sprintf("octet %d is %#02x for algorithm %d, want %#02x", oct, got, a, 1<<uint(7-a))
+				}
 			}
 		}
+	}
+	if undecided != "" {
+		c.SoftUndecided("%s: GetUESecurityCapability: %s", R, undecided)
+		return
 	}
 	c.Check(okLen, R, "tglib.GetUESecurityCapability:length", fn.Pos(), "Len 2, two capability octets", "the UE security capability must have Len 2 and a 2-octet buffer")
 	for i, s := range setters {
@@ -673,3 +684,11 @@ func r17pcoid(c *core.Ctx) {
 	c.Sites(n)
 	c.Floor(R, n, len(pcoIDs))
 }
+
+var allOctets = func() []int64 {
+	var out []int64
+	for i := int64(0); i < 256; i++ {
+		out = append(out, i)
+	}
+	return out
+}()
